@@ -14,7 +14,7 @@ script_code / scriptPubKey arguments are neutral scripts (command list or verbat
 import hashlib
 
 from .wire import le, compact_size, varstr, hash256, sha256
-from .txwire import script_bytes, txout_ser, outpoint_ser, OP_PUSHDATA1, OP_PUSHDATA2, OP_PUSHDATA4
+from .txwire import script_bytes, script_parse, txout_ser, outpoint_ser, OP_PUSHDATA1, OP_PUSHDATA2, OP_PUSHDATA4
 
 SIGHASH_DEFAULT = 0
 SIGHASH_ALL = 1
@@ -304,7 +304,6 @@ def spend_digest(tx, i, spent, hash_type):
     """digest (32 bytes, or None = validation fails) the input `i` of `tx` has to sign/verify, chosen from the
     output it spends (spent[i]) as BIP16/BIP141/BIP143/BIP341 prescribe.  Scripts are command lists;
     for P2SH the redeem script is the last push of scriptSig, for P2WSH the last witness item."""
-    from .txwire import script_parse
     inp = tx[1][i]
     amount, spk = spent[i]
     kind = classify(spk)
